@@ -259,7 +259,7 @@ fn flat_tail(spec: &Spec, pdepth: usize, st: &mut Stats, sink: &Sink) {
     use Kind::*;
     let n = spec.n;
     st.configs += 1;
-    let root = build::<f64>(spec);
+    let Some(root) = super::common::build_or_report::<f64>("C16", spec, sink) else { return };
     let lens = [n + 1, n + 2, 3 * n];
     let maxlen = 3 * n + if spec.kind == CyberCycle { 40 * n.max(6) } else { 0 };
     let mut check_tails = |v: &Dyn<f64>, hist: &[f64], st: &mut Stats| {
@@ -313,7 +313,10 @@ fn flat_tail(spec: &Spec, pdepth: usize, st: &mut Stats, sink: &Sink) {
         }
         true
     };
-    check_tails(&root, &[], st);
+    if let Err(m) = guard(|| check_tails(&root, &[], st)) {
+        sink.push(Violation::new("C16", spec, "panicked", "f64", &[], format!("{} (a flat stream with no prefix)", m)));
+        return;
+    }
     tree::<f64, Dyn<f64>>(
         &root,
         &F7,
